@@ -1179,7 +1179,22 @@ def check_selection(ctx, rule, path, n):
             env = {"p%d" % i: v for i in range(5)}
             env.update({"s%d" % i: 1000 + i for i in range(n)})
             got = cval(ctx.fold(res[j], env))
-            rep.ob(rule, "%s slot %d index %d" % (short(path), j, v), got == 1000 + v, "five_from_permutation: slot %d with index %d reads slot %s of the hand" % (j, v, (got - 1000) if got is not None else "?"), pdb.where(key))
+            okv = got == 1000 + v
+            detail = "five_from_permutation: slot %d with index %d reads slot %s of the hand" % (j, v, (got - 1000) if got is not None else "?")
+            if okv:
+                # ... and it is that slot's word *unchanged*, whatever the word: with the index fixed the result must
+                # be the slot itself, bit for bit
+                pj = atom("p%d" % j, "u8")
+                r_ = substitute(res[j], lambda nd: C(v, "u8") if nd is pj else None)
+                if r_ is not sa[v]:
+                    try:
+                        bits = BitVec(pdb).bv(r_)
+                        okv = bits == [("b", "s%d" % v, i) for i in range(32)]
+                    except Uncertified:
+                        okv = False
+                    if not okv:
+                        detail = "five_from_permutation: slot %d with index %d is computed from slot %d of the hand but is not that word unchanged" % (j, v, v)
+            rep.ob(rule, "%s slot %d index %d" % (short(path), j, v), okv, detail, pdb.where(key))
             cnt += 1
     # in-range index tuples never panic (bounds checks of the slot reads), whatever the slots hold
     import random
